@@ -249,6 +249,8 @@ def shape_of(fld):
         return "sn" if nn else "s"
     if b[0] == "list2":
         return b[1]
+    if b[0] == "fan":
+        return "lin" if nn else "li"
     if b[0] == "list":
         base = {"obj": "lo", "int": "li", "sc": "ls", "abs": "lu"}[b[2]]
         if b[1]:
@@ -307,7 +309,7 @@ def doc_of(program):
             args = "(%s)" % ", ".join("%s: %d" % (a, v) for a, v in sorted(f["args"].items()))
         return "k%d: %s%s%s" % (f["k"], name, args, sub)
 
-    def sel(fields, plan, tname):
+    def sel(fields, plan, tname, meta=None):
         by_key = {f["k"]: f for f in fields}
         names = field_names(fields)
         texts = {}
@@ -338,9 +340,14 @@ def doc_of(program):
 
         parts = render(plan or [])
         parts += [text(f["k"]) for f in fields if f["k"] not in used]
+        for pos, name in sorted(meta or [], reverse=True):
+            parts.insert(min(pos, len(parts)),
+                         "__typename" if name == "__typename" else "__schema { queryType { name } }")
         return " ".join(parts)
 
-    body = sel(program["fields"], program.get("render"), _root_type(program))
+    # program["meta"] = [[position, "__typename" | "__schema"], ...]: meta fields selected at the
+    # root, inserted between the top-level items of the root selection
+    body = sel(program["fields"], program.get("render"), _root_type(program), program.get("meta"))
     return "%s { %s }%s" % (program["op"], body, "".join(" " + d for d in frag_defs))
 
 
@@ -360,6 +367,8 @@ def key_order_of(text):
         def walk(sels):
             for s_ in sels:
                 if isinstance(s_, A.Field):
+                    if s_.name.value.startswith("__"):
+                        continue      # meta fields are not part of the behaviour tree
                     k = s_.alias.value if s_.alias else s_.name.value
                     if k not in nodes:
                         order.append(k)
@@ -507,6 +516,16 @@ def _raising_iterable(items, variant):
     return gen()
 
 
+class _At:
+    """stands in for `info` in the label of a call parked by a controller"""
+    def __init__(self, path):
+        self.path = list(path)
+
+
+def fan_value(b):
+    return [e[1] if e[0] in ("p", "w") else 2 * e[1] + 2 if e[0] == "m" else 2 * e[1] + 1 for e in b[2]]
+
+
 class _Run:
     def __init__(self, program, config, ctl):
         self.world = world_of(program)
@@ -525,10 +544,12 @@ class _Run:
         self.ctl.log("finish", (p, 0))
         return self.behave(self.world[p], p)
 
-    def behave(self, fld, p, a=None):
+    def behave(self, fld, p, a=None, info=None):
         b = fld["b"]
         if b[0] == "int":
             return b[1]
+        if b[0] == "fan":
+            return self.fan(b, p, info)
         if b[0] == "echo":
             return (a or {}).get("dflt")     # the coerced argument the resolver received
         if b[0] == "null":
@@ -562,12 +583,53 @@ class _Run:
                        else self.obj(p + (i,), it[1], it[2] if len(it) > 2 else "T"))
         return out
 
+    def fan(self, b, p, info):
+        """["fan", kind, entries, wrap]: the resolver fans out through the runtime API itself and
+        returns runtime.gather_values(<generator | iterator | list | tuple>) of entries
+            ["p", n] a plain value            ["w", n] runtime.ensure_wrapped(n)
+            ["s", n] runtime.submit(work, n)  ["m", n] runtime.map_value(runtime.submit(work, n), +1)
+            ["a", n] runtime.submit(<coroutine function>, n) under asyncio (else as "s")
+        optionally mapped ("m" in wrap) / wrapped ("w" in wrap) again. fan_value() is the list it
+        stands for under every runtime."""
+        rt = info.runtime
+
+        def work(_r, _c, _i, n):
+            return 2 * n + 1
+
+        async def awork(_r, _c, i, n):
+            await self.ctl.gate((tuple(i.path), 0))
+            return 2 * n + 1
+
+        def entry(i, e):
+            at = _At(p + (1000 + i,))       # gives the parked call its label
+            if e[0] == "p":
+                return e[1]
+            if e[0] == "w":
+                return rt.ensure_wrapped(e[1])
+            if e[0] == "a" and self.config in ("aio", "aiot"):
+                return rt.submit(awork, None, None, at, e[1])
+            sub = rt.submit(work, None, None, at, e[1])
+            return rt.map_value(sub, lambda v: v + 1) if e[0] == "m" else sub
+
+        kind, entries, wrap = b[1], b[2], (b[3] if len(b) > 3 else "")
+        if kind == "gen":
+            values = (entry(i, e) for i, e in enumerate(entries))
+        else:
+            made = [entry(i, e) for i, e in enumerate(entries)]
+            values = iter(made) if kind == "iter" else tuple(made) if kind == "tuple" else made
+        res = rt.gather_values(values)
+        if "m" in wrap:
+            res = rt.map_value(res, lambda vs: [v for v in vs])
+        if "w" in wrap:
+            res = rt.ensure_wrapped(res)
+        return res
+
     # S everywhere; P/C under the blocking configurations; P under asyncio
     def immediate(self, _ctx, info, /, **_a):
         p = tuple(info.path)
         self.ctl.log("invoke", (p, 0))
         self.ctl.log("finish", (p, 0))
-        return self.behave(self.world[p], p, _a)
+        return self.behave(self.world[p], p, _a, info)
 
     # D: a method of the parent object (default resolver) that returns a deferred value
     def method_deferred(self, ctx, info, /, **a):
@@ -590,7 +652,7 @@ class _Run:
         def level(l):
             if l < fld["lv"]:
                 return self.ctl.defer((p, l + 1), level, l + 1)
-            return self.behave(fld, p, _a)
+            return self.behave(fld, p, _a, info)
 
         return level(0)
 
@@ -604,11 +666,11 @@ class _Run:
             await self.ctl.gate((p, l))
             if l < fld["lv"]:
                 return level(l + 1)
-            return self.behave(fld, p, _a)
+            return self.behave(fld, p, _a, info)
 
         if fld["lv"] > 0:
             return level(1)
-        return self.behave(fld, p, _a)
+        return self.behave(fld, p, _a, info)
 
     # C under asyncio
     async def coro(self, _root, _ctx, info, /, **_a):
@@ -619,7 +681,7 @@ class _Run:
             await self.ctl.gate((p, l))
             if l < fld["lv"]:
                 return level(l + 1)
-            return self.behave(fld, p, _a)
+            return self.behave(fld, p, _a, info)
 
         return await level(0)
 
@@ -700,6 +762,10 @@ def _seg(x):
     return int(x)
 
 
+def _is_meta(lb):
+    return any(isinstance(x, str) and x.startswith("__") for x in lb[0])
+
+
 def _label(lb):
     return [[_seg(x) for x in lb[0]], lb[1]]
 
@@ -719,9 +785,34 @@ def _data(v):
     raise _BadData(type(v).__name__)  # e.g. a Future / coroutine leaked into the response
 
 
-def _result_obs(res):
+def _strip_meta(data, program):
+    """root meta fields (program["meta"]): absent when introspection is disabled, else present with
+    their well-known values at their document position; they are checked here and removed (they are
+    not part of the behaviour tree). Anything unexpected is left in place and so fails the comparison."""
+    if not isinstance(data, dict) or program is None or not program.get("meta"):
+        return data
+    if program.get("nointro"):
+        return data               # nothing to strip: a meta key that shows up is foreign
+    if not program.get("render"):
+        want = ["k%d" % f["k"] for f in program["fields"]]
+        for pos, name in sorted(program["meta"], reverse=True):
+            want.insert(min(pos, len(want)), name)
+        if list(data.keys()) != want:
+            return data
+    qname = LAYOUTS[program.get("layout", "distinct")][0]
+    out = type(data)()
+    for k, v in data.items():
+        if k == "__typename" and v == _root_type(program):
+            continue
+        if k == "__schema" and v == {"queryType": {"name": qname}}:
+            continue
+        out[k] = v
+    return out
+
+
+def _result_obs(res, program=None):
     try:
-        data = _data(res.data)
+        data = _data(_strip_meta(res.data, program))
     except _BadData as e:
         return {"fail_other": "BadData", "msg": "response data contains a %s" % e}
     errs = []
@@ -731,22 +822,24 @@ def _result_obs(res):
     return {"data": data, "errors": errs}
 
 
-def _finish_obs(ctl, state, first, schedule, extra=None):
+def _finish_obs(ctl, state, first, schedule, extra=None, program=None):
     kind, val = state
     if kind == "pending":
         obs = {"pending": True}
     elif kind == "raised":
         obs = _exc_obs(val)
     else:
-        obs = _result_obs(val)
+        obs = _result_obs(val, program)
     if first is not None and first[0] != "pending":
-        fo = _exc_obs(first[1]) if first[0] == "raised" else _result_obs(first[1])
+        fo = _exc_obs(first[1]) if first[0] == "raised" else _result_obs(first[1], program)
         if fo != {k: v for k, v in obs.items() if k in fo}:
             obs["changed_after_completion"] = fo
-    obs["events"] = [[k, _label(lb)] for k, lb in ctl.events]
-    obs["schedule"] = [_label(lb) for lb in schedule]
+    # root meta fields (program["meta"]) are not part of the behaviour tree: their resolver is a
+    # leaf without effects; its tasks / events are left out of the observation
+    obs["events"] = [[k, _label(lb)] for k, lb in ctl.events if not _is_meta(lb)]
+    obs["schedule"] = [_label(lb) for lb in schedule if not _is_meta(lb)]
     obs["leftover"] = extra.get("leftover", 0) if extra else 0
-    obs["eager"] = [_label(lb) for lb in (extra or {}).get("eager", [])]
+    obs["eager"] = [_label(lb) for lb in (extra or {}).get("eager", []) if not _is_meta(lb)]
     obs["swallowed"] = sorted(set(ctl.swallowed))
     return obs
 
@@ -773,12 +866,12 @@ def run_blocking(program, config):
     try:
         doc = _validated(schema, program, config)
         with _interpreter_default_recursion_limit():
-            res = process_graphql_query(schema, doc, root=run.obj((), program["fields"]), middlewares=([_mw] if program.get("mw") else None), validators=[],
+            res = process_graphql_query(schema, doc, root=run.obj((), program["fields"]), middlewares=([_mw] if program.get("mw") else None), disable_introspection=bool(program.get("nointro")), validators=[],
                                         runtime=BlockingRuntime(), executor_cls=cls)
         state = ("ok", res)
     except Exception as e:  # noqa
         state = ("raised", e)
-    return _finish_obs(ctl, state, None, [])
+    return _finish_obs(ctl, state, None, [], program=program)
 
 
 def run_scheduled(program, config, choose, timeout=None):
@@ -822,14 +915,14 @@ def run_scheduled(program, config, choose, timeout=None):
         try:
             with sched.watchdog(timeout), _interpreter_default_recursion_limit():
                 ctl.start(lambda: process_graphql_query(
-                    schema, doc, root=run.obj((), program["fields"]), middlewares=([_mw] if program.get("mw") else None), validators=[], runtime=ctl.runtime, executor_cls=Executor))
+                    schema, doc, root=run.obj((), program["fields"]), middlewares=([_mw] if program.get("mw") else None), disable_introspection=bool(program.get("nointro")), validators=[], runtime=ctl.runtime, executor_cls=Executor))
                 schedule = _drive(ctl, choose, schedule)
         except sched.Hang:
             obs = {"hang": True, "events": [[k, _label(lb)] for k, lb in ctl.events],
                    "schedule": [_label(lb) for lb in schedule], "leftover": 0, "swallowed": [],
                    "eager": [_label(lb) for lb in eager]}
             return obs
-        return _finish_obs(ctl, ctl.outcome(), ctl.first_outcome(), schedule,
+        return _finish_obs(ctl, ctl.outcome(), ctl.first_outcome(), schedule, program=program, extra=
                            {"leftover": ctl.leftover(), "eager": eager})
     finally:
         ctl.close()
@@ -859,7 +952,7 @@ def run_threads(program, rng, timeout=None):
         ok = True
         doc = _validated(schema, program, "pool")
         ctl.start(lambda: process_graphql_query(
-            schema, doc, root=run.obj((), program["fields"]), middlewares=([_mw] if program.get("mw") else None), validators=[], runtime=ctl.runtime, executor_cls=Executor))
+            schema, doc, root=run.obj((), program["fields"]), middlewares=([_mw] if program.get("mw") else None), disable_introspection=bool(program.get("nointro")), validators=[], runtime=ctl.runtime, executor_cls=Executor))
         for _ in range(10000):
             labels = sorted(ctl.parked(), key=repr)
             if not labels:
@@ -873,7 +966,7 @@ def run_threads(program, rng, timeout=None):
         if not ok:
             return {"hang": True, "events": [], "schedule": [_label(lb) for lb in schedule],
                     "leftover": 0, "swallowed": []}
-        return _finish_obs(ctl, ctl.outcome(), ctl.first_outcome(), schedule,
+        return _finish_obs(ctl, ctl.outcome(), ctl.first_outcome(), schedule, program=program, extra=
                            {"leftover": ctl.leftover()})
     finally:
         ctl.close()
